@@ -68,19 +68,14 @@ def detect(ids):
     shutil.copytree("/repo", base_work, ignore=shutil.ignore_patterns("target", ".git"))
     base, err = seeded.keys_for(base_work)
     shutil.rmtree(tmp0, ignore_errors=True)
-    alarms = 0
-    for bid in ids:
+    def one(bid):
         tmp, work, ok, msg = scratch(bid)
         try:
             if not ok:
-                print("%-34s patch does not apply: %s" % (bid, msg[:200]))
-                alarms += 1
-                continue
+                return (bid, True, "patch does not apply: %s" % msg[:200])
             res, err = seeded.keys_for(work)
             if res is None:
-                print("%-34s does not compile under the driver: %s" % (bid, err[:200]))
-                alarms += 1
-                continue
+                return (bid, True, "does not compile under the driver: %s" % err[:200])
             fired = {p: [k for k in ks if k not in base.get(p, [])] for p, ks in res.items()}
             fired = {p: ks for p, ks in fired.items() if ks}
             mp = os.path.join(BENIGN, bid, "meta.json")
@@ -88,11 +83,16 @@ def detect(ids):
             meta["alarms"] = {p: ks[:6] for p, ks in fired.items()}
             with open(mp, "w") as f:
                 json.dump(meta, f, indent=1)
-            if fired:
-                alarms += 1
-            print("%-34s %s %s" % (bid, "FALSE-ALARM" if fired else "silent", {p: ks[:3] for p, ks in fired.items()} if fired else ""))
+            return (bid, bool(fired), "%s %s" % ("FALSE-ALARM" if fired else "silent", {p: ks[:3] for p, ks in fired.items()} if fired else ""))
         finally:
             shutil.rmtree(tmp, ignore_errors=True)
+    from concurrent.futures import ThreadPoolExecutor
+    with ThreadPoolExecutor(max_workers=8) as ex:
+        rs = list(ex.map(one, ids))
+    for bid, bad, msg in rs:
+        print("%-34s %s" % (bid, msg))
+    alarms = sum(1 for r in rs if r[1])
+    print("benign corpus: %d patches, %d raise an alarm" % (len(rs), alarms))
     return 1 if alarms else 0
 
 
